@@ -237,7 +237,10 @@ HEADER = ("(* GENERATED on every run by vlib/translate.py from the current sourc
 #                                  plain names equal to m's parameter names; its locals do not leak
 #   `/` is Q division: a ZeroDivisionError is not modelled (x / 0 = 0 in Q); the bridges state the divisor non-zero.
 #   select   "loop_after_yield": the method is a process body `while True: yield <wait>; <statements>`; the statements
-#            run at each resumption are translated (anything else in the method: Unsupported)
+#            run at each resumption are translated (anything else in the method: Unsupported);
+#            "sample_loop_body": `while True: yield <wait>; for x in <iterable>: <statements>`: the statements for one x
+#   aliases  [(python statement, name)]   `x = <object expression>` where x is afterwards only read through listed
+#            observations marked "needs:<name>" (`service_pkt = self.scheduler.packet_in_service`)
 #   ignore_stmts [python statement]   whole statements dropped (a debug block `if self.debug: ...` that only prints)
 #   draws    [(python expression, parameter, type, constructor)]
 #                                  `name = <expression>` consuming an outside value (random.uniform(0, 1)): the value
@@ -324,10 +327,10 @@ def _is_none_const(e):
 
 class FnSpec:
     def __init__(self, path, cls, method, name, reads=(), effects=(), draws=(), ret="unit", ignore_calls=("print", "dprint"),
-                 select=None, stateops=(), bindings=(), inline=(), ignore_stmts=()):
+                 select=None, stateops=(), bindings=(), inline=(), ignore_stmts=(), aliases=()):
         self.path, self.cls, self.method, self.name, self.select = path, cls, method, name, select
         self.stateops, self.bindings, self.inline = list(stateops), list(bindings), list(inline)
-        self.ignore_stmts = list(ignore_stmts)
+        self.ignore_stmts, self.aliases = list(ignore_stmts), list(aliases)
         self.reads = [tuple(r) + (("",) if len(r) == 3 else ()) for r in reads]
         self.effects = [tuple(e) + (((),) if len(e) == 3 else ()) for e in effects]
         self.draws, self.ret, self.ignore_calls = list(draws), ret, set(ignore_calls)
@@ -348,6 +351,7 @@ class FxTr:
         self.draws = [(ast.dump(_parse_expr(src)), p, ty, con) for (src, p, ty, con) in spec.draws]
         self.volatile = {p for (_, p, _, flag) in spec.reads if flag == "volatile"}
         self.ignored = [_parse_stmt(src) for src in spec.ignore_stmts]
+        self.aliases = [(_parse_stmt(src), name) for (src, name) in spec.aliases]
         self.stateops = [(_parse_stmt(src), field, param) for (src, field, param) in spec.stateops]
         self.bindings = [(_parse_stmt(src), local, param, ty) for (src, local, param, ty) in spec.bindings]
         self.counters = {}
@@ -639,6 +643,11 @@ class FxTr:
         s, rest = stmts[0], stmts[1:]
         if any(_match(pat, s, {}) for pat in self.ignored):  # a listed debug-output statement, dropped as a whole
             return self.block(rest, env, k)
+        for (pat, name) in self.aliases:                 # `x = <object>`: x is only read through listed observations
+            if _match(pat, s, {}):                       # marked needs:<name>
+                env2 = self.copy(env)
+                env2["done"].add(name)
+                return self.block(rest, env2, k)
         for (pat, field, param) in self.stateops:        # a listed statement that transforms one state field
             if _match(pat, s, {}):
                 cur = env["vars"][("self", field)]
@@ -798,10 +807,12 @@ class FxTr:
             head, tail = f"if {c}", ""
         if not joinable:
             saved = dict(self.counters)
-            subs = []
+            subs, ends_c = [], []
             for (h, e, body) in arms:
                 self.counters = dict(saved)          # the arms are alternatives: they may reuse names
                 subs.append(self.block(body + rest, e, k))
+                ends_c.append(dict(self.counters))
+            self.counters = {n: max(c.get(n, 0) for c in ends_c) for c0 in ends_c for n in c0}   # ... but nothing after them does
             if not unk and all(x == subs[0] for x in subs):
                 return subs[0]                       # `if debug: print(..)`: the test was checked, nothing depends on it
             out = f"({head}\n"
@@ -886,6 +897,20 @@ def translate_fn(spec, state, record, prefix, effect_type):
         if not ok:
             raise Unsupported(f"{spec.cls}.{spec.method}: not of the shape `while True: yield ...; statements`")
         stmts = list(stmts[0].body[1:])
+        if any(isinstance(n, (ast.Yield, ast.YieldFrom, ast.Break, ast.Continue, ast.Return)) for x in stmts for n in ast.walk(x)):
+            raise Unsupported(f"{spec.cls}.{spec.method}: yield / break / continue / return inside the sampled statements")
+    elif spec.select == "sample_loop_body":
+        # `while True: yield <wait>; for x in <iterable>: <statements>`: the statements for ONE x (x is a listed observation;
+        # the loop itself -- which x, in which order -- is not translated)
+        stmts = [x for x in stmts if not (isinstance(x, ast.Expr) and isinstance(x.value, ast.Constant))]
+        ok = (len(stmts) == 1 and isinstance(stmts[0], ast.While) and isinstance(stmts[0].test, ast.Constant)
+              and stmts[0].test.value is True and not stmts[0].orelse and len(stmts[0].body) == 2
+              and isinstance(stmts[0].body[0], ast.Expr) and isinstance(stmts[0].body[0].value, ast.Yield)
+              and isinstance(stmts[0].body[1], ast.For) and isinstance(stmts[0].body[1].target, ast.Name)
+              and not stmts[0].body[1].orelse)
+        if not ok:
+            raise Unsupported(f"{spec.cls}.{spec.method}: not of the shape `while True: yield ...; for x in ...: statements`")
+        stmts = list(stmts[0].body[1].body)
         if any(isinstance(n, (ast.Yield, ast.YieldFrom, ast.Break, ast.Continue, ast.Return)) for x in stmts for n in ast.walk(x)):
             raise Unsupported(f"{spec.cls}.{spec.method}: yield / break / continue / return inside the sampled statements")
     elif spec.select is not None:
